@@ -478,9 +478,21 @@ def c15_drivers(tier, seed):
                 # fill states: empty, partly filled (random / continuation bytes at the end), full
                 fills = [[], [("rand", rng.randrange(1, 12))], [("rand", 9), ("cont", 6)], [("cont", 21)],
                          [("rand", cap)], [("rand", 17), ("cont", 3), ("rand", 2), ("cont", 1)]]
+                # ... and a state holding well-formed varints of every encoded length back to back (1, 2, 3, 5, 9, 10 and
+                # 19 bytes: the longest encodings of the 16/32/64/128-bit types, signed ones included)
+                res_ = sh.get("reserved", 0)
+                doff = (((res_ + 7) // 8) * 8 + 32) if (sh.get("unify") or backend == "file") else res_ + 1
+                enc = []
+                for ln in [1, 2, 3, 5, 9, 10, 19]:
+                    if len(enc) + ln <= cap - doff - 2:
+                        enc += [0xFF] * (ln - 1) + [0x01]
+                fills.append([("rand", len(enc) + 1), ("poke", (doff, enc))])
                 for fi, fill in enumerate(fills):
                     ops = []
                     for (mode, sz) in fill:
+                        if mode == "poke":
+                            ops.append({"k": "poke", "at": sz[0], "b": sz[1]})
+                            continue
                         ops.append({"k": "alloc", "n": sz, "fill": mode})
                     ops.append({"k": "lens"})
                     types = RD_TYPES if (tier == "thorough" or (n + fi) % 2 == 0) else RD_TYPES[(fi % 2)::2]
@@ -499,7 +511,7 @@ def c15_drivers(tier, seed):
                     # then lost), so these calls travel in small drivers, one per type
                     if fi in (0, 2, 4) or tier == "thorough":
                         for (ty, size, signed) in RD_TYPES:
-                            xops = [{"k": "alloc", "n": sz, "fill": mode} for (mode, sz) in fill]
+                            xops = [{"k": "alloc", "n": sz, "fill": mode} for (mode, sz) in fill if mode != "poke"]
                             offs, ext = offsets_for(cap, size, rng, tier)
                             for ord_ in (["be"] if size == 1 else ["be", "le"]):
                                 for off in ext:
